@@ -556,10 +556,10 @@ Proof.
     unfold clone_top in *. rewrite Htop in *.
     destruct (get_scope (scopes s1) tp) as [ck d] eqn:Eg.
     assert (Ed : d = scope_dict s tp). { rewrite <- Hsd1. unfold scope_dict. rewrite Eg. reflexivity. }
-    pose proof (scope_dict_new_gen s1 ck d) as Hsd2.
-    assert (Enew : fst (new_scope s1 ck d) = next_id s1) by reflexivity.
-    destruct (new_scope s1 ck d) as [j s2] eqn:E2. cbn [fst snd] in *. subst j.
-    assert (E2' : s2 = snd (new_scope s1 ck d)) by (rewrite E2; reflexivity).
+    pose proof (scope_dict_new_gen s1 KClone d) as Hsd2.
+    assert (Enew : fst (new_scope s1 KClone d) = next_id s1) by reflexivity.
+    destruct (new_scope s1 KClone d) as [j s2] eqn:E2. cbn [fst snd] in *. subst j.
+    assert (E2' : s2 = snd (new_scope s1 KClone d)) by (rewrite E2; reflexivity).
     assert (Hd2 : deferred s2 = deferred s) by (rewrite E2'; exact Hd1).
     set (j := next_id s1) in *. set (stk' := removelast stk ++ [j]) in *.
     assert (Hplain_d : forall key v, In (key, v) d -> v = Plain).
@@ -947,7 +947,7 @@ Proof.
 Qed.
 
 Lemma pop_plain_t : forall T0 BS0 I00 exp s Mdyn tr i, UI T0 BS0 I00 exp s Mdyn tr -> i <> T0 -> pop s i = s.
-Proof. intros T0 BS0 I00 exp s Mdyn tr i HU Hi. unfold pop. apply report_unused_plain. intros k e0 Hin. eapply (u_plain _ _ _ _ _ _ _ HU); eauto. Qed.
+Proof. reflexivity. Qed.
 
 Lemma open_scope_u3 : forall exp l L' acc accs ex s e tr Lf Mdyn Mb R,
   Inv3 exp l L' acc accs ex s e tr Lf Mdyn Mb ->
@@ -1536,7 +1536,7 @@ Proof. intros A a b c H y Hy. apply H. apply in_app_iff. auto. Qed.
 
 Lemma stmt_u3 : forall x, PUS x.
 Proof.
-  induction x using stmt_ind'; try (intros Hs; discriminate); try (intros Hs Hn; discriminate); try rename e into e0;
+  induction x using stmt_ind'; try (intros Hs; discriminate); try (intros Hs Hn; discriminate); try rename e into e0; try rename ex into exs;
     intros Hs Hn exp l L' acc accs ex s e tr Lf Mdyn Mb HI Hin HBS e' rds Esem; unfold NS in *.
   - (* SExpr *)
     cbn in Esem. injection Esem as <- <-. cbn [s2_stmt vstmt bsrcs map] in *.
@@ -1656,6 +1656,10 @@ Proof.
     apply (block_u3 f H2 Hd Nd _ _ _ _ _ _ _ _ _ _ _ _ I2 (incl_app_r _ _ _ _ (incl_app_r _ _ _ _ Hin))).
     intros E. exact (incl_app_r _ _ _ _ (incl_app_r _ _ _ _ (HBS E))). exact E3.
   - (* SPass *)
+    cbn in Esem. injection Esem as <- <-. cbn [vstmt bsrcs map].
+    destruct (PostS3_refl _ _ _ _ _ _ _ _ _ _ _ _ (Inv3_with_ln _ _ _ _ _ _ _ _ _ _ _ _ ln HI)) as (exp1 & X1 & I1 & N1).
+    exists exp1. split. exact X1. split. exact I1. exact N1.
+  - (* SDoc *)
     cbn in Esem. injection Esem as <- <-. cbn [vstmt bsrcs map].
     destruct (PostS3_refl _ _ _ _ _ _ _ _ _ _ _ _ (Inv3_with_ln _ _ _ _ _ _ _ _ _ _ _ _ ln HI)) as (exp1 & X1 & I1 & N1).
     exists exp1. split. exact X1. split. exact I1. exact N1.
@@ -2619,7 +2623,7 @@ Qed.
 
 Lemma stmt_u3_s3 : forall x, PUS_s3 x.
 Proof.
-  induction x using stmt_ind'; try (intros Hs; discriminate); try (intros Hs Hn; discriminate); try rename e into e0;
+  induction x using stmt_ind'; try (intros Hs; discriminate); try (intros Hs Hn; discriminate); try rename e into e0; try rename ex into exs;
     intros Hs Hn exp l L' acc accs ex s e tr Lf Mdyn Mb HI Hin HBS e' rds Esem; unfold NS in *.
   - (* SExpr *)
     cbn in Esem. injection Esem as <- <-. cbn [s3_stmt vstmt bsrcs map] in *.
@@ -2739,6 +2743,10 @@ Proof.
     apply (block_u3_s3 f H2 Hd Nd _ _ _ _ _ _ _ _ _ _ _ _ I2 (incl_app_r _ _ _ _ (incl_app_r _ _ _ _ Hin))).
     intros E. exact (incl_app_r _ _ _ _ (incl_app_r _ _ _ _ (HBS E))). exact E3.
   - (* SPass *)
+    cbn in Esem. injection Esem as <- <-. cbn [vstmt bsrcs map].
+    destruct (PostS3_refl _ _ _ _ _ _ _ _ _ _ _ _ (Inv3_with_ln _ _ _ _ _ _ _ _ _ _ _ _ ln HI)) as (exp1 & X1 & I1 & N1).
+    exists exp1. split. exact X1. split. exact I1. exact N1.
+  - (* SDoc *)
     cbn in Esem. injection Esem as <- <-. cbn [vstmt bsrcs map].
     destruct (PostS3_refl _ _ _ _ _ _ _ _ _ _ _ _ (Inv3_with_ln _ _ _ _ _ _ _ _ _ _ _ _ ln HI)) as (exp1 & X1 & I1 & N1).
     exists exp1. split. exact X1. split. exact I1. exact N1.
@@ -2915,13 +2923,19 @@ Proof.
   set (sF := fold_left (fun s d => let '(n, stk, ln) := d in check_load s (stack_of [lm]) stk n ln) (deferred s1) s1) in *.
   pose proof (SameBut_fold (stack_of [lm]) (deferred s1) s1) as (ES & ME & EU). fold sF in ES, ME, EU.
   rewrite stack_top in Hrep. set (T := l_b lm) in *.
-  unfold pop in Hrep.
-  assert (EsdF : forall j, scope_dict (with_deferred sF []) j = scope_dict s1 j) by (intro j; unfold scope_dict; cbn [scopes with_deferred]; rewrite ES; reflexivity).
-  rewrite EsdF in Hrep. apply report_unused_spec in Hrep as [Hrep|(k & c0 & Hk & Hunused & Hl & Hi)].
-  { cbn [unused with_deferred] in Hrep. rewrite EU, (u_unused _ _ _ _ _ _ _ HU1) in Hrep. destruct Hrep. }
-  unfold checker_at in Hunused, Hl, Hi. cbn [checkers with_deferred] in Hunused, Hl, Hi. fold ckd in Hunused, Hl, Hi.
+  set (sP := fold_left report_unused_of (pending_dicts sF T) sF) in *.
+  assert (EckP : checkers sP = checkers sF).
+  { unfold sP. destruct (reports_shape (pending_dicts sF T) sF) as (u & E0). rewrite E0. reflexivity. }
+  assert (Hrep' : exists c0, c_used (nth c0 (checkers sF) ckd) = false /\ c_line (nth c0 (checkers sF) ckd) = l /\ c_imp (nth c0 (checkers sF) ckd) = i).
+  { apply report_unused_spec in Hrep as [Hrep|(k & c0 & Hk & Hunused & Hl & Hi)].
+    - cbn [unused with_deferred] in Hrep. unfold sP in Hrep. apply reports_spec in Hrep as [Hrep|(d & k & c0 & _ & _ & Hu0 & Hl0 & Hi0)].
+      + rewrite EU, (u_unused _ _ _ _ _ _ _ HU1) in Hrep. destruct Hrep.
+      + exists c0. unfold checker_at in Hu0, Hl0, Hi0. fold ckd in Hu0, Hl0, Hi0. auto.
+    - exists c0. unfold checker_at in Hunused, Hl, Hi. cbn [checkers with_deferred] in Hunused, Hl, Hi. fold ckd in Hunused, Hl, Hi.
+      rewrite EckP in Hunused, Hl, Hi. auto. }
+  destruct Hrep' as (c0 & Hunused & Hl & Hi).
   assert (Hc0 : c0 < length (checkers sF)).
-  { rewrite (me_len _ _ ME). destruct (u_top _ _ _ _ _ _ _ HU1 _ _ Hk) as [_ [D|(c' & D & Hlt)]]. discriminate. injection D as <-. exact Hlt. }
+  { destruct (Nat.lt_ge_cases c0 (length (checkers sF))) as [H|H]; auto. exfalso. rewrite nth_overflow in Hunused by exact H. discriminate. }
   (* the read: its checker is used in the end *)
   assert (Hused : exists c, c < length (checkers sF) /\ c_line (nth c (checkers sF) ckd) = l /\
                             c_imp (nth c (checkers sF) ckd) = i /\ c_used (nth c (checkers sF) ckd) = true).
@@ -3001,13 +3015,19 @@ Proof.
   set (sF := fold_left (fun s d => let '(n, stk, ln) := d in check_load s (stack_of [lm]) stk n ln) (deferred s1) s1) in *.
   pose proof (SameBut_fold (stack_of [lm]) (deferred s1) s1) as (ES & ME & EU). fold sF in ES, ME, EU.
   rewrite stack_top in Hrep. set (T := l_b lm) in *.
-  unfold pop in Hrep.
-  assert (EsdF : forall j, scope_dict (with_deferred sF []) j = scope_dict s1 j) by (intro j; unfold scope_dict; cbn [scopes with_deferred]; rewrite ES; reflexivity).
-  rewrite EsdF in Hrep. apply report_unused_spec in Hrep as [Hrep|(k & c0 & Hk & Hunused & Hl & Hi)].
-  { cbn [unused with_deferred] in Hrep. rewrite EU, (u_unused _ _ _ _ _ _ _ HU1) in Hrep. destruct Hrep. }
-  unfold checker_at in Hunused, Hl, Hi. cbn [checkers with_deferred] in Hunused, Hl, Hi. fold ckd in Hunused, Hl, Hi.
+  set (sP := fold_left report_unused_of (pending_dicts sF T) sF) in *.
+  assert (EckP : checkers sP = checkers sF).
+  { unfold sP. destruct (reports_shape (pending_dicts sF T) sF) as (u & E0). rewrite E0. reflexivity. }
+  assert (Hrep' : exists c0, c_used (nth c0 (checkers sF) ckd) = false /\ c_line (nth c0 (checkers sF) ckd) = l /\ c_imp (nth c0 (checkers sF) ckd) = i).
+  { apply report_unused_spec in Hrep as [Hrep|(k & c0 & Hk & Hunused & Hl & Hi)].
+    - cbn [unused with_deferred] in Hrep. unfold sP in Hrep. apply reports_spec in Hrep as [Hrep|(d & k & c0 & _ & _ & Hu0 & Hl0 & Hi0)].
+      + rewrite EU, (u_unused _ _ _ _ _ _ _ HU1) in Hrep. destruct Hrep.
+      + exists c0. unfold checker_at in Hu0, Hl0, Hi0. fold ckd in Hu0, Hl0, Hi0. auto.
+    - exists c0. unfold checker_at in Hunused, Hl, Hi. cbn [checkers with_deferred] in Hunused, Hl, Hi. fold ckd in Hunused, Hl, Hi.
+      rewrite EckP in Hunused, Hl, Hi. auto. }
+  destruct Hrep' as (c0 & Hunused & Hl & Hi).
   assert (Hc0 : c0 < length (checkers sF)).
-  { rewrite (me_len _ _ ME). destruct (u_top _ _ _ _ _ _ _ HU1 _ _ Hk) as [_ [D|(c' & D & Hlt)]]. discriminate. injection D as <-. exact Hlt. }
+  { destruct (Nat.lt_ge_cases c0 (length (checkers sF))) as [H|H]; auto. exfalso. rewrite nth_overflow in Hunused by exact H. discriminate. }
   (* the read: its checker is used in the end *)
   assert (Hused : exists c, c < length (checkers sF) /\ c_line (nth c (checkers sF) ckd) = l /\
                             c_imp (nth c (checkers sF) ckd) = i /\ c_used (nth c (checkers sF) ckd) = true).
